@@ -51,8 +51,17 @@ const (
 )
 
 // probeUnreferenced enables the opt-in probes of set-size on a file whose
-// last reference is gone (see FINDINGS.md). Off by default: nothing
-// documents a result for such a call, so the default generator refuses it.
+// last reference is gone (finding F1 of this package: fileBackedFile.
+// virtualTruncate dereferences the nil f.file when referenceCount is already
+// 0; reachable through FUSE SETATTR racing with unlink; proposed fix: return
+// StatusErrStale from virtualTruncate when referenceCount == 0). Off by
+// default: the code documents a result on a dead file only for link/open
+// (ESTALE) and upload/open-frozen/stat (NOT_FOUND), so the default generator
+// refuses set-size there and counts the refusals. With the flag on, (a) the
+// action setsize_unreferenced is generated and must return a non-OK status
+// without panicking, (b) the last link/descriptor may be dropped while a
+// set-size is blocked behind an upload; that set-size must then fail cleanly.
+// Use it only together with VERIF_REPO=<scratch tree>.
 var probeUnreferenced = os.Getenv("VERIF_C16_UNREFERENCED_SETSIZE") == "1"
 
 // failure is the panic value used to carry an oracle failure out of the
@@ -1379,7 +1388,7 @@ func (s *sim) actions() map[string]func(*rapid.T) {
 			}
 			s.issue(m, fault, 0)
 		},
-		// Opt-in probe (VERIF_C16_UNREFERENCED_SETSIZE=1), see FINDINGS.md:
+		// Opt-in probe (VERIF_C16_UNREFERENCED_SETSIZE=1), see probeUnreferenced:
 		// set-size on a file whose last reference is gone. Not part of
 		// the default generator because no documentation promises a
 		// result for it.
